@@ -131,7 +131,33 @@ def c_coin_fair(ctx, args):
     return {'kind': 'oracle', 'where': 'np:an undetermined outcome came out the same 64 times in a row', 'observed': sorted(seen), 'expected': 'both outcomes (probability 1/2 each)', 'tags': ['coin']}
 
 
-CHECKS = {'coin_fair': c_coin_fair, 'measure': c_measure, 'measure_forms': c_measure_forms}
+def c_coin_joint(ctx, args):
+    """the coins of ONE measure() call are independent: a list with k undetermined outcomes (log2prob = -k, k <= 4) has 2^k equally likely outcome
+    vectors; over 64 * 2^k measurements of fresh copies every one of them must occur (a given vector is missed with probability (1 - 2^-k)^(64 * 2^k) < 2^-90)"""
+    t, obs, seed = args
+    NP.seed_numba(seed)
+    seen = set()
+    k = None
+    for _ in range(64 * 16):
+        s = NP.STATE(t)
+        out, lp = s.measure(NP.PL(obs))
+        kk = int(round(-float(lp)))
+        if k is None:
+            k = kk
+        if kk != k:
+            return {'kind': 'oracle', 'where': 'np:log2prob of the same measurement changes from run to run', 'observed': [k, kk], 'expected': 'one value', 'tags': ['coin']}
+        if k < 2 or k > 4:
+            return None
+        seen.add(tuple(int(v) for v in np.atleast_1d(out)))
+        if len(seen) == 2 ** k:
+            return None
+        if _ >= 64 * 2 ** k:
+            break
+    return {'kind': 'oracle', 'where': 'np:the undetermined outcomes of one measure() call are not independent fair coins', 'observed': sorted(seen),
+            'expected': '%d distinct outcome vectors (log2prob = -%d)' % (2 ** k, k), 'tags': ['coin', 'joint']}
+
+
+CHECKS = {'coin_joint': c_coin_joint, 'coin_fair': c_coin_fair, 'measure': c_measure, 'measure_forms': c_measure_forms}
 
 
 def all_tableaux_1q():
@@ -200,3 +226,15 @@ def run(ctx):
         q = rng.randrange(n)
         o = rng.choice([[[1 if j == 2 * q + 1 else 0 for j in range(2 * n)], 0], [[1 if j == 2 * q else 0 for j in range(2 * n)], 0], gen.rpauli(rng, n, herm=True, nonzero=True)])
         do(ctx, 'coin_fair', [t, o, rng.randrange(10 ** 6)], nontrivial=('cf', it) if t[1] > 0 else None)
+    # ... and jointly: several undetermined observables in one call (single-site Z's / X's on product-like states, random commuting lists on random states)
+    for it in range(int(40 * B)):
+        n = rng.randint(2, 5)
+        t = gen.rtableau(rng, ctx.model, n, depth=rng.choice([0, 0, 1, None]))
+        if it % 2 == 0:
+            qs = rng.sample(range(n), rng.randint(2, min(n, 4)))
+            xz = rng.randint(0, 1)
+            obs = [[[1 if j == 2 * q + xz else 0 for j in range(2 * n)], rng.choice([0, 2])] for q in qs]
+        else:
+            obs = gen.commuting_obs(rng, ctx.model, n, rng.randint(2, 4))
+        flags = ctx.model.call('measure_flags', t, obs) if ctx.model else []
+        do(ctx, 'coin_joint', [t, obs, rng.randrange(10 ** 6)], nontrivial=('cj', it) if sum(1 for f in flags if f) >= 2 else None)
